@@ -147,7 +147,7 @@ type Recorder struct {
 	closeF    map[CloseFault]bool
 	ops       sync.Map // goid -> OpInfo
 	KeepVals  bool
-	Hook      func(HookPoint)
+	hook      atomic.Pointer[func(HookPoint)]
 	NoLog     bool // count only (very large stress runs)
 	nCtor     int64
 	nClose    int64
@@ -166,6 +166,15 @@ func NewRecorder() *Recorder {
 
 // Current returns the recorder of the running case.
 func Current() *Recorder { return cur.Load() }
+
+// SetHook installs (or, with nil, removes) the yield-point callback. Safe for concurrent use.
+func (r *Recorder) SetHook(h func(HookPoint)) {
+	if h == nil {
+		r.hook.Store(nil)
+		return
+	}
+	r.hook.Store(&h)
+}
 
 // SetFaults installs the fault plan (before the case starts; immutable afterwards).
 func (r *Recorder) SetFaults(fs []Fault, cfs []CloseFault) {
@@ -274,8 +283,8 @@ func Construct(ctor int, outs []*Inst, types []string, args ...any) (Action, err
 		recArgs[i] = recordArg(i, a, r.KeepVals)
 	}
 	r.add(Event{Kind: CtorEnter, G: g, Op: oi.Op, Scope: oi.Scope, Ctor: ctor, Nth: nth, Args: recArgs})
-	if h := r.Hook; h != nil {
-		h(HookPoint{Where: "ctor", Ctor: ctor, Nth: nth, G: g, Op: oi.Op})
+	if h := r.hook.Load(); h != nil {
+		(*h)(HookPoint{Where: "ctor", Ctor: ctor, Nth: nth, G: g, Op: oi.Op})
 	}
 	for _, f := range r.faults[ctor] {
 		if f.Nth != 0 && f.Nth != nth {
@@ -326,8 +335,8 @@ func OnClose(i *Inst) error {
 	g := Goid()
 	oi := r.opOf(g)
 	r.add(Event{Kind: CloseEv, G: g, Op: oi.Op, Scope: oi.Scope, Ctor: i.Ctor, Nth: i.Nth, Insts: []int64{i.ID}, Note: strconv.Itoa(int(n))})
-	if h := r.Hook; h != nil {
-		h(HookPoint{Where: "close", Ctor: i.Ctor, Nth: i.Nth, G: g, Op: oi.Op, Inst: i.ID})
+	if h := r.hook.Load(); h != nil {
+		(*h)(HookPoint{Where: "close", Ctor: i.Ctor, Nth: i.Nth, G: g, Op: oi.Op, Inst: i.ID})
 	}
 	if r.closeF[CloseFault{Ctor: i.Ctor, Nth: i.Nth, Out: i.Out}] {
 		return &CloseErr{ID: i.ID}
